@@ -1,5 +1,6 @@
 import PermutaModel.Lemmas.C02Obj
 import PermutaModel.Lemmas.C07Sched
+import PermutaModel.Lemmas.C07Mono
 
 /-! The sequential theory C07 needs (`C07L.SeqOK`), discharged from the C02 cache invariant:
     for a fixed basis `B`, "good" = the object has basis `B` and satisfies `ObjInv`. -/
@@ -17,7 +18,7 @@ theorem getLast_cons_eq_getLastD {α} (a : α) (l : List α) :
 
 /-- **the hypothesis of the C07 schedule induction holds**: every state reachable inside
     `_ensure_level` shows spec keys on every visible level, never loses a level, the call is total, and
-    its last state is good again with the requested level present -/
+    its last state is good again with the requested level present, and no write shortens the cache -/
 theorem seqOK (B : BasisV) : C07L.SeqOK (specLevel B) (fun o => ObjInv o ∧ o.basis = B) where
   visible := by
     rintro o ⟨h, rfl⟩ i hi
@@ -44,5 +45,8 @@ theorem seqOK (B : BasisV) : C07L.SeqOK (specLevel B) (fun o => ObjInv o ∧ o.b
     subst h2
     rw [getLast_cons_eq_getLastD, hlast]
     exact ⟨⟨hext.inv, hext.basis⟩, hn⟩
+  mono := by
+    rintro o n pre w post _ htr
+    exact C07L.ensureTrace_mono_split o n pre w post htr
 
 end C02L
